@@ -1,2 +1,39 @@
-From OCV Require Export Base.Prelude Queue.PMap Queue.OWS Queue.OWSOracle Cases.OWS.
-Definition judge := judge_with o_c03.
+(** Judges for C03: sequential histories (lockstep oracle) and concurrent programs (set of
+    reachable outcomes of exhaustively enumerated interleavings). *)
+From OCV Require Export Base.Prelude Queue.PMap Queue.OWS Queue.OWSOracle Cases.OWS Queue.Conc.
+From Coq Require Import String.
+Open Scope string_scope.
+
+Record ccase := { cc_plain : bool; cc_progs : list (list call); cc_impl : list outcome; cc_complete : bool }.
+
+Definition opt_eqb (a b : option item) : bool := option_eqb Z.eqb a b.
+Definition outcome_eqb (a b : outcome) : bool :=
+  list_eqb (list_eqb opt_eqb) (o_res a) (o_res b) && (o_len a =? o_len b)%Z && list_eqb Z.eqb (o_drained a) (o_drained b).
+
+Definition subset (a b : list outcome) : bool := forallb (fun x => existsb (outcome_eqb x) b) a.
+
+(** the plain queue has one injector: every priority is the same *)
+Definition flatten_prio (plain : bool) (p : list call) : list call :=
+  if plain then map (fun c => match c with CPush _ x => CPush 0 x | CPop => CPop end) p else p.
+
+Definition nkeys (progs : list (list call)) : nat :=
+  List.length (flat_map (fun p => flat_map (fun c => match c with CPush _ _ => [tt] | CPop => [] end) p) progs).
+
+Definition model_outcomes (c : ccase) : list outcome :=
+  let progs := map (flatten_prio (cc_plain c)) (cc_progs c) in
+  all_outcomes (S (fold_right Nat.add O (map (prog_points (nkeys progs)) progs))) (mk_cst progs).
+
+Definition judge_conc (c : ccase) : verdict :=
+  let m := model_outcomes c in
+  {| v_corr := cc_complete c && subset m (cc_impl c) && subset (cc_impl c) m;
+     v_prop := forallb (outcome_ok (pushed_of (cc_progs c))) (cc_impl c);
+     v_tags := ["interleavings"] ++ (if existsb (fun o => negb (Z.eqb (o_len o) 0)) m then ["items_left"] else [])
+               ++ (if existsb (fun o => existsb (existsb (fun r => match r with None => true | _ => false end)) (o_res o)) m
+                   then ["empty_pop"] else []);
+     v_note := "" |}.
+
+Definition judge (c : qcase + ccase) : verdict :=
+  match c with
+  | inl q => judge_with o_c03 q
+  | inr cc => judge_conc cc
+  end.
